@@ -65,6 +65,7 @@ class Interp:
         self.interior_irregular = 0
         self.refusals = 0
         self.nq = 0
+        self.held = []  # (returned object, copy taken at return time, description): answers given earlier must not change
 
     # -- reference -------------------------------------------------------------------------------
     def _locate(self, t):
@@ -107,7 +108,8 @@ class Interp:
             return
         self.nq += 1
         try:
-            got = np.array(self.h(t))
+            raw = self.h(t)
+            got = np.array(raw)
         except Exception as e:
             self.res.violate(exc_bucket("query-raises", e), f"{what}: hist({t!r}) raised {short_exc(e)}")
             self.dead = True
@@ -130,6 +132,19 @@ class Interp:
                              f"{what}: hist({t!r}) = {np.ravel(got)[:4]} expected {np.ravel(exp)[:4]} "
                              f"(records={len(self.ts)}, t0={self.ts[0]!r}, tlast={self.ts[-1]!r})")
             self.dead = True
+            return
+        # an answer given earlier stays what it was: later queries / updates must not alter the returned arrays
+        for obj, snap, desc in self.held:
+            if not np.array_equal(np.asarray(obj), snap):
+                self.res.violate("earlier-answer-changed",
+                                 f"the array returned for {desc} was altered by a later operation ({what}: hist({t!r})): "
+                                 f"now {np.ravel(np.asarray(obj))[:4]}, was {np.ravel(snap)[:4]}")
+                self.dead = True
+                return
+        if isinstance(raw, np.ndarray):
+            self.held.append((raw, got.copy(), f"{what}: hist({t!r})"))
+            if len(self.held) > 6:
+                self.held.pop(0)
 
     def scan(self, what, stride=1):
         n = len(self.ts)
